@@ -45,7 +45,7 @@ type BindSpec struct {
 	SignAlg  string // algorithm actually used for the MAC ("" = Alg)
 	Kid      int    // key index; -1 unknown id; -2 absent
 	Nonce    bool
-	URL      string // same | other | absent | nonstring
+	URL      string // same | other | absent | nonstring | case-prov | case-host | case-scheme | case-path (outer URL, letter case of that part changed)
 	MacWith  int    // key index whose issued secret is used; -1 garbage secret
 	Payload  string // outer | other | null | notjwk | garbage | other-kid-outer | other-kid-arb | outer-kid-arb
 	Tamper   bool
@@ -196,6 +196,10 @@ func (w *world) build(k *Case, rs ReqSpec, keys []liveKey, accKeys []*env.Key) b
 			prot["url"] = env.URL(env.Path(p.Name, "new-order"))
 		case "nonstring":
 			prot["url"] = 5
+		case "case-prov", "case-host", "case-scheme", "case-path":
+			// the outer URL with the letter case of one part changed: URLs are compared exactly
+			// (provisioner names and the path are case-sensitive)
+			prot["url"] = caseVariant(outerURL, bs.URL)
 		}
 		var inner []byte
 		switch bs.Payload {
@@ -532,7 +536,7 @@ func genBind(r *c.Rng, nkeys int) BindSpec {
 	case 3:
 		b.Nonce = true
 	case 4:
-		b.URL = c.Pick(r, []string{"other", "absent", "nonstring"})
+		b.URL = c.Pick(r, []string{"other", "absent", "nonstring", "case-prov", "case-prov", "case-host", "case-scheme", "case-path"})
 	case 5:
 		b.MacWith = c.Pick(r, []int{-1, kid + 1})
 	case 6:
@@ -554,6 +558,31 @@ func genBind(r *c.Rng, nkeys int) BindSpec {
 		b.Nonce = r.Chance(1, 3)
 	}
 	return b
+}
+
+// caseVariant changes the letter case of one part of https://host/acme/<prov>/new-account.
+func caseVariant(u, part string) string {
+	const pre = "https://"
+	rest := strings.TrimPrefix(u, pre)
+	slash := strings.Index(rest, "/")
+	if slash < 0 {
+		return strings.ToUpper(u)
+	}
+	host, pth := rest[:slash], rest[slash:]
+	segs := strings.Split(pth, "/") // "", "acme", prov, "new-account"
+	switch part {
+	case "case-scheme":
+		return "HTTPS://" + rest
+	case "case-host":
+		return pre + strings.ToUpper(host) + pth
+	case "case-prov":
+		if len(segs) > 2 {
+			segs[2] = strings.ToUpper(segs[2])
+		}
+	default:
+		segs[len(segs)-1] = strings.ToUpper(segs[len(segs)-1])
+	}
+	return pre + host + strings.Join(segs, "/")
 }
 
 func genHist(r *c.Rng) *Case {
@@ -760,6 +789,11 @@ func main() {
 		emit(&Case{Kind: "hist", Keys: []KeySpec{{0}}, Reqs: []ReqSpec{{Prov: 0, AccKey: 0, Bind: validBind(0)}, {Prov: 0, AccKey: 1, Bind: validBind(0)}, {Prov: 0, AccKey: 0, Bind: validBind(0)}}})
 		emit(&Case{Kind: "hist", Keys: []KeySpec{{0}, {1}}, Reqs: []ReqSpec{{Prov: 1, AccKey: 0, Bind: validBind(0)}, {Prov: 0, AccKey: 0, Bind: validBind(0)}, {Prov: 1, AccKey: 1, Bind: validBind(0)}, {Prov: 1, AccKey: 1, Bind: validBind(1)}}})
 		emit(&Case{Kind: "hist", Keys: []KeySpec{{0}}, Reqs: []ReqSpec{{Prov: 2, AccKey: 0, Bind: BindSpec{Omit: true}}, {Prov: 0, AccKey: 1, Bind: BindSpec{Omit: true}}}})
+		for _, u := range []string{"case-prov", "case-host", "case-scheme", "case-path"} {
+			b := validBind(0)
+			b.URL = u
+			emit(&Case{Kind: "hist", Keys: []KeySpec{{0}}, Reqs: []ReqSpec{{Prov: 0, AccKey: 0, Bind: b}, {Prov: 0, AccKey: 0, Bind: validBind(0)}}})
+		}
 		for _, pl := range []string{"other-kid-outer", "other-kid-arb", "outer-kid-arb"} {
 			b := validBind(0)
 			b.Payload = pl
@@ -785,6 +819,11 @@ func main() {
 	case "bindonce":
 		for _, s := range []string{"000111", "111000", "010101"} {
 			emit(d11Pair(s, "bindonce"))
+		}
+		for _, u := range []string{"case-prov", "case-host", "case-scheme", "case-path"} {
+			b := validBind(0)
+			b.URL = u
+			emit(&Case{Kind: "bindonce", Keys: []KeySpec{{0}}, Reqs: []ReqSpec{{Prov: 0, AccKey: 0, Bind: b}, {Prov: 0, AccKey: 0, Bind: validBind(0)}}})
 		}
 		for _, pl := range []string{"other-kid-outer", "other-kid-arb", "outer-kid-arb"} {
 			b := validBind(0)
